@@ -26,3 +26,22 @@ prop("C02", "c02",
      note="Trusted: net/url parsing, the reference matcher written from the documentation; conditions restricted to method "
           "conditions (path_params belong to C03).",
      technique="property-based testing: reference model + metamorphic load-order relation + bounded exhaustive enumeration")
+
+prop("C01", "c01",
+     "Scenarios = rule source (regular rule / default rule / no applicable rule) x pipeline of 1-3 authenticators, 0-4 "
+     "authorizers/contextualizers, 0-3 finalizers (scripted probe mechanisms mixed with real anonymous/unauthorized/"
+     "allow/deny/cel/header mechanisms; outcome in success, each heimdall error kind, foreign error, panic; `if` absent/"
+     "true/false/runtime evaluation error; continue-on-error; fallback flag) x error pipeline of 0-3 handlers (default, "
+     "redirect, www_authenticate, probe, redirect with failing template; each with `if`) x entry point (decision HTTP, "
+     "proxy with echo upstream, Envoy gRPC over bufconn). Oracle: reference interpreter of the statement gives the "
+     "necessary condition for a positive answer; observed positive answer must imply it, and a failed pipeline must "
+     "yield status >= 300 / denied / gRPC error with the upstream hit counter unchanged. Non-trivial: a step failed, was "
+     "skipped, had an unevaluable condition or panicked, or an error handler ran; distinct by the full scenario string.",
+     [dict(run="^TestPositiveAnswerOnlyAfterCompletePipeline$", quick=1500, thorough=12000, shards_thorough=12)],
+     ["which authenticator failure permits fallback is C04's subject: the model only requires that some authenticator "
+      "succeeded and nothing executed before it panicked", "redirect codes are 3xx, status overrides left at defaults (C12)"],
+     level="Randomised generated search over pipelines x outcome vectors x error pipelines x entry points on the fully "
+           "assembled real services (only step outcomes are scripted); bounded exploration.",
+     note="Trusted: the scripted probe mechanisms return exactly the scripted outcome; the converse direction (model allows "
+          "=> allowed) is measured and reported in labels, not asserted.",
+     technique="property-based testing: reference interpreter (necessary condition) on assembled services, 3 entry points")
